@@ -9,7 +9,10 @@ from . import pool
 from . import common
 from . import joinmodel as J
 
-RULE = ("(a) directed: for every shape rows 0-3 x columns 0-3, 19 structural operations (incl. attribute assignment from generators / iterators / map / zip of right and wrong size, and whole-table / region item assignment from a table with a different row count) (>> vector / list / dict / table with right and wrong "
+from . import recompute
+
+RULE = ("[plus the shared recompute-after-history monitor: this property's operations evaluated on long-lived objects between in-place writes / renames must equal the same operations on fresh objects rebuilt from the current contents] "
+	"(a) directed: for every shape rows 0-3 x columns 0-3, 19 structural operations (incl. attribute assignment from generators / iterators / map / zip of right and wrong size, and whole-table / region item assignment from a table with a different row count) (>> vector / list / dict / table with right and wrong "
 	"lengths, << row with right, short and long width, << table, row slices, row masks, .T.T, attribute assignment with right and wrong length, "
 	"Table([...]) / Table({...}) / Vector([...]) with unequal columns) are executed and compared cell for cell with list models: >> leaves existing "
 	"columns untouched, << appends to every column, row selection is uniform, transposing twice restores the cells, ragged input is rejected (raises "
@@ -23,10 +26,10 @@ ASSUMPTIONS = [
 ]
 EXHAUSTIVE = {"flag": True, "scope": "all shapes 0..3 x 0..3 for every directed structural operation; histories are sampled"}
 ANCHOR_FUNCS = ["table:Table.__init__", "table:Table.__rshift__", "table:Table.__lshift__", "table:Table.T", "table:Table.__getitem__", "table:Table.__iter__"]
-REQUIRED_STRATA = {"structural": 200, "steps": 2000}
+REQUIRED_STRATA = {"recompute": 200, "structural": 200, "steps": 2000}
 
 OPS = [">>vector", ">>vector-wrong", ">>list", ">>dict", ">>dict-wrong", ">>table", ">>table-wrong", "<<row", "<<row-short", "<<row-long", "<<table",
-	"rowslice", "rowmask", "T.T", "attr", "attr-wrong", "ragged-ctor", "attr-iterable", "setitem-table"]
+	"rowslice", "rowmask", "T.T", "attr", "attr-wrong", "ragged-ctor", "attr-iterable", "setitem-table", "<<table-dupnames", ">>table-dupnames"]
 
 
 def mk(rng, r, c):
@@ -239,6 +242,31 @@ def run_structural(chk, spec):
 			if any(not M.eq_list(g, e) for g, e in zip(got, exp)):
 				chk.fail("table assignment writes the addressed cells", "structural/setitem-table/wrong-cells", f"{spec!r}: {short(got, 160)} vs {short(exp, 160)}")
 		fail_rect(chk, t, "after setitem-table", spec)
+	elif op in ("<<table-dupnames", ">>table-dupnames"):
+		# tables whose column names repeat: << appends to every column BY POSITION, >> keeps every column
+		if c < 2 or r == 0:
+			chk.skip("structural-needs-two-columns")
+			return
+		dn = ["a"] * c if spec["key"][0] == 0 else (["a", "b", "a"][:c] if c >= 3 else ["a", "a"])
+		kinds = ["int"] * c
+		colsA = [[rng.choice([1, 2, 3]) + 10 * i for _ in range(r)] for i in range(c)]
+		colsB = [[rng.choice([1, 2, 3]) + 100 * (i + 1) for _ in range(spec["key"][1] + 1)] for i in range(c)]
+		ta = Table([Vector(list(x), name=nm) for x, nm in zip(colsA, dn)])
+		tb = Table([Vector(list(x), name=nm) for x, nm in zip(colsB, dn)])
+		if op == "<<table-dupnames":
+			o = call(lambda: ta << tb)
+			exp = [a + b for a, b in zip(colsA, colsB)]
+			what = "<< appends rows to every column (by position, also when names repeat)"
+		else:
+			tb = Table([Vector(list(x)[:1] * r, name=nm) for x, nm in zip(colsB, dn)])
+			o = call(lambda: ta >> tb)
+			exp = [list(a) for a in colsA] + [[b[0]] * r for b in colsB]
+			what = ">> appends columns and leaves existing ones untouched (also when names repeat)"
+		if not o.ok:
+			chk.fail(what, f"structural/{op}/raises/{type(o.exc).__name__}", f"{spec!r} raised {o!r}")
+			return
+		expect_cells(chk, spec, o.value, exp, what, "wrong-cells")
+		return
 	elif op == "ragged-ctor":
 		a = Vector(V.column(rng, "int", r + 1, "none", small=True), name="a")
 		b = Vector(V.column(rng, "int", r, "none", small=True), name="b")
@@ -258,14 +286,14 @@ def run_history(chk, spec):
 	m.run()
 
 
-RUNNERS = {"structural": run_structural, "history": run_history}
-
+RUNNERS = {"structural": run_structural, "history": run_history, "recompute": recompute.runner("C02")}
 
 def setup(chk):
 	pool.CENSUS.install()
 
 
 def run(chk):
+	recompute.add_cases(chk, "C02")
 	rng = chk.rng
 	idx = 0
 	for r in range(4):
@@ -282,6 +310,8 @@ def run(chk):
 					variants = [(form, delta) for form in range(6) for delta in (0, 1, 2, -1)]
 				elif op == "setitem-table":
 					variants = [(kf, delta) for kf in range(4) for delta in (0, 1, -1, 2)]
+				elif op in ("<<table-dupnames", ">>table-dupnames"):
+					variants = [(a, b) for a in (0, 1) for b in (0, 1)]
 				for key in variants:
 					idx += 1
 					if not chk.mine(idx):
